@@ -215,3 +215,96 @@ def ci_grid(req):
                 fail(pt2)
     return {"evaluations": evals, "failures": fails, "z": {repr(k): v for k, v in list(zs.items())},
             "bound": "n in %r x p in %r x confidence in %r x 4 spellings of the two methods; 11 unknown method names; alpha on a 1/2000 grid + tails" % (ns, ps, confs)}
+
+
+LIFECYCLE_TEXTS = [
+    'def e1 { splitters: uid return "A" weighted 1, "B" weighted 1 }',
+    'def e2 { salt: "s" splitters: uid return "X" weighted 3, "Y" weighted 1 }',
+    'def e1 { splitters: uid return "A" weighted 1, "B" weighted 9 }',
+    'def e1 { splitters: uid /* c */ if uid == "u1" { return "P" weighted 1 } else { return "Q" weighted 1 } }',
+    'def e1 { return "A" weighted }',
+    'def',
+    'def e1 { splitters: uid return "A" weighted 1, "B" weighted 1 ',
+    '',
+]
+
+
+@register("lifecycle_diff")
+def lifecycle_diff(req):
+    """bounded stand-in for C11: all operation sequences (recompile with valid/invalid texts on two evaluators, calls
+    after every step) up to a length, real evaluators vs the model 'fresh evaluator built from the last accepted text'"""
+    import contextlib
+    import io
+    import itertools
+    from pyab_experiment.experiment_evaluator import ExperimentEvaluator
+    maxlen = req.get("maxlen", 3)
+    limit = req.get("limit", 3)
+    texts = req.get("texts", LIFECYCLE_TEXTS)
+    inputs = [{"uid": "u1"}, {"uid": "u2"}, {"uid": 17}, {"uid": "u1", "extra": 1}]
+    sink = io.StringIO()
+
+    def fresh(t):
+        with contextlib.redirect_stdout(sink), contextlib.redirect_stderr(sink):
+            return ExperimentEvaluator(t)
+
+    def behaviour(ev):
+        out = []
+        for kw in inputs:
+            r = outcome(ev, **kw)
+            out.append((r["outcome"], r.get("value") if r["outcome"] == "return" else r.get("exc")))
+        return out
+    valid = {}
+    ref = {}
+    for t in texts:
+        try:
+            ref[t] = behaviour(fresh(t))
+            valid[t] = True
+        except BaseException:   # noqa
+            valid[t] = False
+    fails, evals, seqs = [], 0, 0
+    ops = [(i, t) for i in (0, 1) for t in texts]
+    for L in range(1, maxlen + 1):
+        for seq in itertools.product(ops, repeat=L):
+            seqs += 1
+            evs = [None, None]
+            accepted = [None, None]
+            trace = []
+            bad = None
+            for (i, t) in seq:
+                evals += 1
+                trace.append(("new" if evs[i] is None else "recompile", i, t))
+                with contextlib.redirect_stdout(sink), contextlib.redirect_stderr(sink):
+                    if evs[i] is None:
+                        try:
+                            e = ExperimentEvaluator(t)
+                            raised = False
+                        except BaseException:   # noqa
+                            raised = True
+                        if raised != (not valid[t]):
+                            bad = "construction %s for a text that is %s" % ("raised" if raised else "succeeded", "valid" if valid[t] else "invalid")
+                        if not raised:
+                            evs[i], accepted[i] = e, t
+                    else:
+                        try:
+                            evs[i].recompile(t)
+                            raised = False
+                        except BaseException:   # noqa
+                            raised = True
+                        if raised != (not valid[t]):
+                            bad = "recompile %s for a text that a fresh evaluator %s" % ("raised" if raised else "returned silently", "accepts" if valid[t] else "rejects")
+                        if not raised and valid[t]:
+                            accepted[i] = t
+                if bad is None:
+                    for j in (0, 1):
+                        if evs[j] is not None and behaviour(evs[j]) != ref[accepted[j]]:
+                            bad = "evaluator %d does not behave like a fresh evaluator of its last accepted text" % j
+                if bad:
+                    break
+            if bad and len(fails) < limit:
+                fails.append({"history": trace, "what": bad})
+            if len(fails) >= limit:
+                break
+        if len(fails) >= limit:
+            break
+    return {"evaluations": evals, "sequences": seqs, "failures": fails, "valid_texts": sum(valid.values()), "invalid_texts": len(texts) - sum(valid.values()),
+            "bound": "all sequences of length <= %d over {new/recompile(e_i, t)} with 2 evaluators x %d texts; 4 calls on every evaluator after every step" % (maxlen, len(texts))}
